@@ -423,7 +423,7 @@ fn redirected() -> Vec<(String, Spec, Box<dyn Fn() -> W + Send + Sync>)> {
             r = r.orig("content-length", "3");
             body = b"abc".to_vec();
         }
-        let cfg = Arc::new(ChainCfg { prop: "C02", req: r, body, statuses: vec![302, 307], locs: locs.clone(), max_hops: 3, check_credentials: false, check_target: false });
+        let cfg = Arc::new(ChainCfg { prop: "C02", req: r, body, statuses: vec![302, 307], locs: locs.clone(), max_hops: 3, check_credentials: false, check_target: false, refuse_expect: false });
         // enumerate all chain states
         let mut seen = std::collections::HashSet::new();
         let mut q = std::collections::VecDeque::new();
@@ -531,7 +531,6 @@ fn all_cfgs(tier: Tier) -> Vec<Result<Arc<HeadCfg>, (String, String, u64)>> {
 }
 
 pub fn run(tier: Tier) -> Report {
-    crate::engine::WD_LIMIT_S.store(300, std::sync::atomic::Ordering::Relaxed);
     let cfgs = all_cfgs(tier);
     let parts: Vec<Report> = cfgs
         .par_iter()
